@@ -570,6 +570,13 @@ func genPBig(r *rng, id string, cnt counters, emit func(line, out string)) *pExe
 			}
 			do(fmt.Sprintf("readfrom %s %s", pay(n), showResps(rs)))
 		case x < 70:
+			if bsz := e.bc.BlockSize; r.chance(40) && e.unparsed() <= bsz {
+				// directed: a little more than one block is unparsed
+				want := bsz + r.pick(1, 2, bsz>>12, bsz>>12+1, bsz>>8, 255)
+				if add := want - e.unparsed(); add > 0 && add <= bs-(len(e.fed)-e.off) {
+					do("write " + pay(add))
+				}
+			}
 			do("parsenil")
 			for r.chance(50) && !e.dead && e.unparsed() > 0 {
 				do("parsenil")
@@ -769,6 +776,13 @@ func genPLarge(r *rng, id string, cnt counters, emit func(line, out string)) (*p
 
 // pLargeParse parses one block and hands it to the decoder (same window).
 func pLargeParse(r *rng, e *pExec, d *dExec) {
+	if bsz := e.bc.BlockSize; r.chance(25) && e.unparsed() <= bsz {
+		// directed: a little more than one block is unparsed (BlockSize + 1 … + BlockSize>>8)
+		want := bsz + r.pick(1, 2, bsz>>12, bsz>>12+1, bsz>>8, 255, 256)
+		if add := want - e.unparsed(); add > 0 && add <= e.bc.BufferSize-(len(e.fed)-e.off) {
+			e.step(fmt.Sprintf("write #%d:%d", r.intn(100000), add))
+		}
+	}
 	if r.chance(4) {
 		before := e.cpos
 		e.step("parsenil")
